@@ -490,6 +490,9 @@ class Interp:
             return self.call_closure(f, args, kwargs, node)
         if isinstance(f, OpaqueFn):
             return f.apply(self, args, kwargs)
+        if isinstance(f, Obj) and isinstance(f.attrs.get('__call__'), OpaqueFn):
+            # an abstract callable object with attributes (e.g. a tool command with a rule name)
+            return f.attrs['__call__'].apply(self, args, kwargs)
         if isinstance(f, Sym) and isinstance(f.ty, tuple) and f.ty[0] == 'opaque' and f.ty[1] in M.OPAQUE_CALL:
             return M.OPAQUE_CALL[f.ty[1]](self, f, args)
         if isinstance(f, M.Model):
